@@ -7,7 +7,7 @@
     modelled: every syntax error is [LErr LiquidSyntaxError None].
 
     The model is total over all strings, including strings with lone
-    surrogates ([digits.encode()] then raises UnicodeEncodeError). *)
+    surrogates. *)
 From LQ Require Import Base.Str.
 Local Open Scope N_scope.
 
@@ -33,10 +33,10 @@ Definition is_surrogate (cp : N) : bool := (0xD800 <=? cp) && (cp <=? 0xDFFF).
 Definition string_from_code_point (cp : N) : res char :=
   if cp <? 8 then syntax_error else Ok cp.
 
-(** unescape.py:104-119 [_parse_hex_digits].  [digits.encode()] is UTF-8: a
-    lone surrogate cannot be encoded (UnicodeEncodeError, raised before the
-    loop starts); every byte of a non-ASCII character is >= 128 and takes the
-    [else] branch, exactly like the character itself does here. *)
+(** unescape.py:104-120 [_parse_hex_digits]: the code points of the window, one
+    by one (since 2f6fa4b; before, [digits.encode()] made a lone surrogate a
+    UnicodeEncodeError).  Everything outside the three ranges, non-ASCII and
+    lone surrogates included, takes the [else] branch. *)
 Fixpoint parse_hex_loop (ds : str) (cp : N) : res N :=
   match ds with
   | [] => Ok cp
@@ -48,9 +48,7 @@ Fixpoint parse_hex_loop (ds : str) (cp : N) : res N :=
       else syntax_error
   end.
 
-Definition parse_hex_digits (digits : str) : res N :=
-  if existsb is_surrogate digits then PyExc UnicodeError
-  else parse_hex_loop digits 0.
+Definition parse_hex_digits (digits : str) : res N := parse_hex_loop digits 0.
 
 Definition at_is (v : str) (i : nat) (c : N) : bool :=
   match nth_error v i with Some x => x =? c | None => false end.
